@@ -428,15 +428,16 @@ type gen struct {
 	maxDepth int
 	allowRec bool
 	noURL    bool
+	allowRecFile bool
 }
 
 var fmtTexts = [][]string{
-	fText:     {"t ", "<x>", "&", "line\n", "- "},
+	fText:     {"t ", "<x>", "&", "line ", "- "},
 	fHTML:     {"<p>", "</p>", "x", " &amp; ", "<b>y</b>", "<hr>"},
-	fCSS:      {"a{b:c}", " ", "p{m:0}"},
-	fJS:       {"var x = 1;", "f();", " "},
-	fJSON:     {"[1,", "2]", " "},
-	fMarkdown: {"# h\n", "*e*", "t ", "\n\n"},
+	fCSS:      {"a{b:c}", "h{i:j}", "p{m:0}"},
+	fJS:       {"var x = 1;", "f();", "g(2);"},
+	fJSON:     {"[1,", "2]", "3,"},
+	fMarkdown: {"# h ", "*e*", "t ", "- i "},
 }
 
 func (g *gen) text(f int) sNode {
@@ -549,6 +550,12 @@ func (g *gen) body(f int, in *sFile, child *sFile, nparams int, depth int, n int
 			if g.c.Rng.Intn(3) == 0 {
 				kind = 'V'
 			}
+			// a macro with a deferred call taken as a value yields a stale register (recorded
+			// finding macro-with-defer-loses-output): only call it where the fast path applies
+			if sm.m.rec && (kind == 'V' || !(sm.m.fmt == f || (sm.m.fmt == fMarkdown && f == fHTML))) {
+				ns = append(ns, g.text(f))
+				continue
+			}
 			ns = append(ns, sNode{kind: kind, c: plain, e: e})
 		default:
 			// render
@@ -557,11 +564,14 @@ func (g *gen) body(f int, in *sFile, child *sFile, nparams int, depth int, n int
 				continue
 			}
 			pf := g.partialFormat(f)
-			p := g.newFile(pf, depth+1, false)
 			kind := byte('S')
 			if g.c.Rng.Intn(3) == 0 {
 				kind = 'V'
 			}
+			saved := g.allowRecFile
+			g.allowRecFile = kind == 'S' && (pf == f || (pf == fMarkdown && f == fHTML))
+			p := g.newFile(pf, depth+1, false)
+			g.allowRecFile = saved
 			ns = append(ns, sNode{kind: kind, c: plain, e: sExp{kind: 'r', n: p.path}})
 		}
 	}
@@ -626,7 +636,7 @@ func (g *gen) newFile(f int, depth int, declOnly bool) *sFile {
 		sf.macros = append(sf.macros, g.macro(f, sf, depth))
 	}
 	if !declOnly {
-		if g.allowRec && g.c.Rng.Intn(8) == 0 {
+		if g.allowRec && g.allowRecFile && g.c.Rng.Intn(6) == 0 {
 			sf.rec = true
 		}
 		sf.body = g.body(f, sf, nil, 0, depth, 1+g.c.Rng.Intn(4))
@@ -652,6 +662,7 @@ func genFileSet(c *Ctx, allowRec bool) *fileSet {
 		g.fs.main = child.path
 		return g.fs
 	}
+	g.allowRecFile = true
 	m := g.newFile(f, 0, false)
 	g.fs.main = m.path
 	return g.fs
@@ -674,4 +685,63 @@ func init() {
 			c.Line("RUN", r.String())
 		}
 	})
+}
+
+// tcLine prints one correspondence case for the model driver.
+func tcLine(c *Ctx, fs *fileSet, conv bool, failAt int, r tcResult) {
+	c.Line("tc", fmt.Sprint(failAt), b01(conv), fmt.Sprint(fs.main), fs.valsField(), fs.encode(), r.String())
+}
+
+// limit the size of generated sets
+func (fs *fileSet) size() int {
+	n := 0
+	for _, f := range fs.files {
+		n += len(f.body) + 1
+		for _, m := range f.macros {
+			n += len(m.body) + 1
+		}
+	}
+	return n
+}
+
+func genSmallFileSet(c *Ctx, allowRec bool) *fileSet {
+	for {
+		fs := genFileSet(c, allowRec)
+		if fs.size() <= 60 {
+			return fs
+		}
+	}
+}
+
+func init() {
+	// C13 correspondence: every failure position of the writer, through Template.Run
+	Register("C13-cases", func(c *Ctx) {
+		for i := 0; i < c.N; i++ {
+			fs := genSmallFileSet(c, true)
+			conv := c.Rng.Intn(6) != 0
+			t, msg := fs.build(conv)
+			if t == nil {
+				c.Count("build-failures")
+				if strings.HasPrefix(msg, "buildpanic") {
+					c.Fail("host-panic:build", map[string]any{"files": fs.srcMap(), "panic": msg})
+				}
+				continue
+			}
+			r0 := runTemplate(t, 0)
+			tcLine(c, fs, conv, 0, r0)
+			c.Count("templates")
+			for k := 1; k <= r0.calls && k <= 40; k++ {
+				tcLine(c, fs, conv, k, runTemplate(t, k))
+				c.Count("failure-positions")
+			}
+		}
+	})
+}
+
+func (fs *fileSet) srcMap() map[string]string {
+	m := map[string]string{}
+	for k, v := range fs.sources() {
+		m[k] = string(v)
+	}
+	return m
 }
